@@ -27,7 +27,7 @@ func (m *Machine) fmtArg(verb string, v Value) []*Term {
 			return s.B
 		}
 		switch x.V.(type) {
-		case *Term, *StrV, FloatV:
+		case *Term, *StrV, FloatV, *SliceV:
 			return m.fmtArgTyped(verb, x.V, x.T)
 		}
 		return lit("<" + x.T.String() + ">")
